@@ -345,13 +345,29 @@ class Observer:
                     keys.setdefault(t, ln["id"])
         return keys
 
-    def source_lines(self, src, defname):
+    def source_lines(self, src, tree, defname, islam):
+        """formula.source as <<id, col>> pairs.  A line is recognised by its text; the lines of
+        the def's docstring statement that are not lines of the layout are NEWID+1, +2, ...
+        (whatever the quoting); a lambda is read at the extent of the lambda node (enclosing
+        parentheses are not part of the expression)."""
         keys = self._keys(defname)
-        phys = src.split("\n")
-        if src.endswith("\n"):
-            phys = phys[:-1]
+        hdr_line, doc_rng, doc_node = 0, None, None
+        if islam:
+            seg = ast.get_source_segment(src, tree.body[0].value)
+            phys = (seg if seg is not None else src).split("\n")
+        else:
+            phys = src.split("\n")
+            if src.endswith("\n"):
+                phys = phys[:-1]
+            if tree is not None and defname:
+                fn = tree.body[0]
+                hdr_line = fn.lineno
+                b0 = fn.body[0]
+                if isinstance(b0, ast.Expr) and isinstance(b0.value, ast.Constant) \
+                        and isinstance(b0.value.value, str):
+                    doc_rng, doc_node = (b0.lineno, b0.end_lineno), b0.value
         out = []
-        for p in phys:
+        for n, p in enumerate(phys, 1):
             s = p.strip()
             if not s:
                 out.append([0, 0])
@@ -359,7 +375,13 @@ class Observer:
             col = len(p) - len(p.lstrip())
             if s in keys:
                 out.append([keys[s], col])
-            elif s in self.newdoc:
+            elif doc_rng and doc_rng[0] <= n <= doc_rng[1] and n != hdr_line:
+                out.append([NEWID + 1 + n - doc_rng[0], col])
+            elif doc_rng and n == hdr_line and doc_rng == (n, n):
+                # one-line body: cut the docstring literal (and its separator) out
+                rest = p[:doc_node.col_offset] + p[doc_node.end_col_offset:].lstrip(" ;")
+                out.append([keys.get(rest.strip(), -1), col])
+            elif tree is None and s in self.newdoc:
                 out.append([self.newdoc[s], col])
             else:
                 out.append([-1, col])
@@ -383,6 +405,7 @@ class Observer:
         o["ok"] = True
         o["cname"] = cells.name
         defname, decos, islam = "", 0, False
+        tree = None
         try:
             tree = ast.parse(src)
             if len(tree.body) == 1 and isinstance(tree.body[0], ast.FunctionDef):
@@ -392,9 +415,10 @@ class Observer:
                     isinstance(tree.body[0].value, ast.Lambda):
                 islam = True
         except SyntaxError:
+            tree = None
             decos = sum(1 for p in src.split("\n") if p.startswith("@"))
         o["defname"], o["decos"], o["islam"] = defname, decos, islam
-        o["lines"] = self.source_lines(src, defname)
+        o["lines"] = self.source_lines(src, tree, defname, islam)
         o["nl"] = src.endswith("\n")
         o["hash"] = zlib.crc32(src.encode()) & 0xFFFFF
         o["params"] = [str(p) for p in cells.parameters]
